@@ -77,12 +77,31 @@ static void seq_script(vrf::Rng& rng, long round)
             uint32_t id = next_id++;
             typename FX::WH h(fx.g->lock_write());
             unsigned k = static_cast<unsigned>(rng.below(4));
-            if (k == 0) { h->push_front(Val<T>::make(id)); ref.push_front(id); }
-            else if (k == 1) { h->push_back(Val<T>::make(id)); ref.push_back(id); }
-            else if (k == 2) { h->emplace_front(Val<T>::make(id)); ref.push_front(id); }
-            else { h->emplace_back(Val<T>::make(id)); ref.push_back(id); }
+            // with the instance-counted element type the element's constructor sometimes throws while the node is being built:
+            // nothing that was never constructed may be destroyed, the block must be given back, the list stays as it was
+            bool inject = std::is_same<T, vrf::Cell>::value && rng.chance(20);
+            bool threw = false;
+            auto value = Val<T>::make(id);
+            (void)h->begin();
+            if (inject) vrf::fault_arm(1u << 1, k < 2 ? 2 : 1);  // push_*: 1st copy = by-value parameter, 2nd = node construction
+            try {
+                if (k == 0) h->push_front(value);
+                else if (k == 1) h->push_back(value);
+                else if (k == 2) h->emplace_front(value);
+                else h->emplace_back(value);
+            }
+            catch (const vrf::Injected&) {
+                threw = true;
+            }
+            if (inject) {
+                vrf::fault_disarm();
+                if (!threw) vrf::harness_error("element constructor fault was not reached");
+                if (vrf::held_count() != 0) vrf::violation("oracle:lock_not_released_after_throw", "{\"op\":\"push with throwing element constructor\"}");
+                vrf::count("pushes_with_throwing_element_constructor");
+            } else if (k == 0 || k == 2) ref.push_front(id);
+            else ref.push_back(id);
             fx.handles_taken++;
-            prog += "\"push" + std::to_string(k) + " " + std::to_string(id) + "\",";
+            prog += "\"push" + std::to_string(k) + " " + std::to_string(id) + (threw ? " (ctor throws)" : "") + "\",";
         } else if (!ref.empty()) {
             size_t k = rng.below(ref.size());
             typename FX::WH h(fx.g->lock_write());
